@@ -106,3 +106,45 @@ Definition out_raw (o : out) : str :=
   | OEvent e => if ev_nl e then flat_map (fun l => l ++ [10]) (ev_raw e) else concat (ev_raw e)
   | OCrash _ _ => []
   end.
+
+(* ------------------------------------------------------------------ Live / Progress: redirection of ONE stream
+   `_enable_redirect_io` / `_disable_redirect_io` (rich/live.py, rich/progress.py; Status wraps a Live):
+       enable : if self._redirect_X [and self._restore_X is None]:      <- rf_guard
+                    self._restore_X = sys.X;  sys.X = FileProxy(self.console, sys.X)
+       disable: if self._restore_X:  sys.X = self._restore_X  [; self._restore_X = None]   <- rf_reset
+   (call-site facts gen/FileProxyFacts.v).  The console is a terminal and redirection is requested. *)
+Record rfacts : Type := mkRF { rf_guard : bool; rf_reset : bool }.
+Inductive stream : Type := SRaw | SProxy (n : nat).      (* the n-th FileProxy this display created *)
+Record rstate : Type := mkRS { r_cur : stream; r_restore : option stream; r_made : nat }.
+Definition r_init : rstate := mkRS SRaw None 0.
+
+Definition r_enable (rf : rfacts) (st : rstate) : rstate :=
+  if rf_guard rf && (match r_restore st with Some _ => true | None => false end) then st
+  else mkRS (SProxy (r_made st)) (Some (r_cur st)) (S (r_made st)).
+Definition r_disable (rf : rfacts) (st : rstate) : rstate :=
+  match r_restore st with
+  | Some r => mkRS r (if rf_reset rf then None else Some r) (r_made st)
+  | None => st
+  end.
+
+(* one run of the display: start(), the history written to sys.X, stop() *)
+Record run_obs : Type := mkRO {
+  ro_proxy : bool;          (* sys.X is a FileProxy created by this start() *)
+  ro_outs : list out;       (* console.print calls made for this stream during the run *)
+  ro_pending : str;
+  ro_restored : bool }.     (* after stop() sys.X is the original stream again *)
+
+Definition fresh_proxy (before after : rstate) : bool :=
+  match r_cur after with SProxy n => Nat.eqb n (r_made before) | SRaw => false end.
+Definition is_raw (s : stream) : bool := match s with SRaw => true | SProxy _ => false end.
+
+Fixpoint restart_runs (fix_d8 : bool) (fc : facts) (rf : rfacts) (st : rstate) (hs : list (list op)) : list run_obs :=
+  match hs with
+  | [] => []
+  | h :: r =>
+      let st1 := r_enable rf st in
+      let st2 := r_disable rf st1 in
+      let red := fresh_proxy st st1 in
+      let '(p, outs) := if red then proxy_run fix_d8 fc p_init h else (p_init, []) in
+      mkRO red outs (pending p) (is_raw (r_cur st2)) :: restart_runs fix_d8 fc rf st2 r
+  end.
